@@ -20,6 +20,13 @@ LayC == <<Each("q", Var("items"), <<H("("), Reserve("row", 1), H(")")>>, <<H("no
 \* reserves in the @else body of a loop and in the @else body of an @if
 LayD == <<Each("q", Var("items"), <<H("("), P(Var("q")), H(")")>>, <<H("none:"), Reserve("empty", 1)>>, 1), H("/"),
           If(<<Br(Var("show"), <<H("+")>>)>>, <<H("alt:"), Reserve("alt", 1)>>, 1)>>
+\* C06 reads "the rendering of layout L in which each @reserve(n) is replaced by the insert's content": what a block-form
+\* insert assigns is assigned in the layout, at the place of the reserve
+LayE == <<Assign("z", StrL("lay"), 1), Reserve("set", 1), H("|"), P(Var("z")), H("|"), Reserve("use", 1), H("|"), If(<<Br(Var("show"), <<Reserve("inner", 1), P(Var("z"))>>)>>, NoElse, 1)>>
+PagesE == {<<InsertB("set", <<Assign("z", StrL("page"), 1), H("s")>>, 1)>>,
+           <<InsertB("set", <<Assign("z", StrL("page"), 1)>>, 1), InsertB("use", <<H("u:"), P(Var("z"))>>, 1)>>,
+           <<InsertB("use", <<P(Var("z")), Assign("w", IntL(1), 1)>>, 1), InsertB("inner", <<Assign("z", StrL("in"), 1), P(Var("w"))>>, 1)>>,
+           <<InsertE("use", Var("z"), 1), InsertB("set", <<Assign("fresh", IntL(3), 1)>>, 1), InsertB("inner", <<P(Var("fresh"))>>, 1)>>}
 \* contents an insert may have for reserve r
 InsForms(r) == {InsertB(r, <<H(r), H(":"), P(Var("t"))>>, 1), InsertE(r, StrL("lit-" \o r), 1), InsertE(r, Bin("+", Var("t"), StrL("!")), 1),
                 InsertB(r, <<If(<<Br(Var("show"), <<H("s")>>)>>, <<H("n")>>, 1)>>, 1)}
@@ -44,6 +51,7 @@ Good06 == {[tree |-> Tree06(<<H("<plain>"), P(Var("t"))>>, <<H("only text")>>, u
              pb \in PagesB, u \in {Ref("layouts/main"), Alias("main")}, d \in DataSets06}
           \cup {[tree |-> Tree06(LayC, pb, Alias("main")), page |-> "home", d |-> d, tags |-> <<"c06", "C">>] : pb \in PagesC, d \in DataSets06}
           \cup {[tree |-> Tree06(LayD, pb, Alias("main")), page |-> "home", d |-> d, tags |-> <<"c06", "D">>] : pb \in PagesD, d \in DataSets06}
+          \cup {[tree |-> Tree06(LayE, pb, Alias("main")), page |-> "home", d |-> d, tags |-> <<"c06", "E">>] : pb \in PagesE, d \in DataSets06}
 \* insert naming no reserve, two inserts with one name, missing layout, layout that uses a layout
 D0 == CHOOSE d \in DataSets06 : TRUE
 Bad06 == {[tree |-> Tree06(LayA, <<InsertE("title", StrL("x"), 1), InsertE("nope", StrL("y"), 1)>>, Alias("main")), page |-> "home", d |-> D0, tags |-> <<"c06", "undefined-insert">>],
